@@ -279,6 +279,23 @@ pub fn layout(items: &[(u32, Val)]) -> (Vec<RawEntry>, Vec<u8>) {
     (entries, store)
 }
 
+/// Like `layout`, but every INT16/32/64 value starts at an offset that is NOT a multiple of its size
+/// (a filler byte is put in front of it where needed): nothing in the format forbids it, rpmbuild just
+/// never writes it.
+pub fn layout_misaligned(items: &[(u32, Val)]) -> (Vec<RawEntry>, Vec<u8>) {
+    let mut store = Vec::new();
+    let mut entries = Vec::new();
+    for (tag, v) in items {
+        let a = v.align();
+        if a > 1 && store.len() % a == 0 {
+            store.push(0xa5);
+        }
+        entries.push(RawEntry { tag: *tag, typ: v.typ(), offset: store.len() as i32, count: v.count() });
+        v.encode(&mut store);
+    }
+    (entries, store)
+}
+
 /// Like `layout`, but prepends an rpm-style region tag (62 for signature, 63 for main header).
 pub fn layout_with_region(region_tag: u32, items: &[(u32, Val)]) -> (Vec<RawEntry>, Vec<u8>) {
     let (mut entries, mut store) = layout(items);
